@@ -12,6 +12,7 @@ table() {
     C02) echo "qbftsim exploration 2400 200 60000 1800";;
     C06) echo "qbftsim exploration 1200 200 40000 1800";;
     C07) echo "qbftsim exploration 1200 170 40000 1800";;
+    C17) echo "qbftsim exploration 6000 150 200000 1200";;
     C14) echo "queuesim exploration 40000 120 1500000 1200";;
     *) return 1;;
   esac
